@@ -31,7 +31,11 @@ func (s *state) accStr(t *rapid.T, min, max int) *ast.Node {
 
 func (s *state) smallSet(t *rapid.T) *ast.Node {
 	e := &cls.Expr{}
-	switch rapid.IntRange(0, 5).Draw(t, "setk") {
+	switch rapid.IntRange(0, 6).Draw(t, "setk") {
+	case 6:
+		// everything but one rune near the top of the BMP or above it: the complement has a range above the rune
+		e.Neg = true
+		e.Items = []cls.Item{{Kind: cls.Char, Lo: rapid.SampledFrom([]rune{0xFFFD, 0xFFFF, 0x10000, 0x1F600, 'é'}).Draw(t, "widech")}}
 	case 0:
 		e.Items = []cls.Item{{Kind: cls.Range, Lo: 'a', Hi: rune('b' + rapid.IntRange(0, 3).Draw(t, "hi"))}}
 	case 1:
@@ -133,9 +137,12 @@ func Accel(t *rapid.T, cfg Cfg) *ast.Node {
 		}
 		return s.node(t, rapid.IntRange(0, 2).Draw(t, "taildepth"))
 	}
-	kind := rapid.IntRange(0, 19).Draw(t, "accel")
-	if kind >= 18 {
+	kind := rapid.IntRange(0, 20).Draw(t, "accel")
+	if kind >= 19 {
 		kind = 5 // the landmark chain has the most moving parts: give it extra weight
+	}
+	if kind == 18 && cfg.NoCond {
+		kind = 2
 	}
 	switch kind {
 	case 0: // leading string
@@ -159,6 +166,19 @@ func Accel(t *rapid.T, cfg Cfg) *ast.Node {
 			return ast.Seq(ast.Group(ast.GNon, a), tail())
 		}
 		return ast.Seq(pre, ast.Group(ast.GNon, a), tail())
+	case 18: // a nullable lead, then a conditional with a lookahead test: one branch nullable, the other starting with a set loop
+		lead := ast.Quant(s.accStr(t, 1, 1), 0, 1, rapid.Bool().Draw(t, "leadlazy"))
+		test := ast.Group(ast.GLookahead, ast.Seq(ast.Quant(s.accStr(t, 1, 1), 1, -1, rapid.Bool().Draw(t, "testlazy"))))
+		set := rapid.SampledFrom([]*ast.Node{{K: ast.KShort, S: "W"}, {K: ast.KShort, S: "s"}, {K: ast.KShort, S: "d"}}).Draw(t, "condset")
+		if rapid.Bool().Draw(t, "condsmall") {
+			set = s.smallSet(t)
+		}
+		other := ast.Seq(ast.Quant(set, 1, -1, rapid.Bool().Draw(t, "setlazy")), s.accStr(t, 0, 1))
+		yes, no := ast.Empty(), other
+		if rapid.Bool().Draw(t, "condswap") {
+			yes, no = other, ast.Empty()
+		}
+		return ast.Seq(lead, &ast.Node{K: ast.KCond, Kids: []*ast.Node{test, yes, no}}, tail())
 	case 2: // leading set
 		return ast.Seq(s.smallSet(t), tail())
 	case 3: // fixed-distance string / char / sets
